@@ -809,7 +809,15 @@ func (c *Case) buildEnc(enc encode.Encoder) (*trie.SlimTrie, error) {
 		}
 		vals = packed
 	}
-	if sel%6 == 4 && len(keys) > 0 {
+	small := len(keys) <= 20000 // the warm-up builds below double the work; identity needs no size
+	if small {
+		total := 0
+		for _, k := range keys {
+			total += len(k)
+		}
+		small = total <= 2<<20
+	}
+	if small && sel%6 == 4 && len(keys) > 0 {
 		// the caller refills ONE key buffer: it held other keys a moment ago (an
 		// unrelated trie was built from them), now it holds this case's keys. A
 		// build is a function of the CONTENTS of its arguments at the time of the
@@ -825,7 +833,7 @@ func (c *Case) buildEnc(enc encode.Encoder) (*trie.SlimTrie, error) {
 		copy(buf, keys)
 		keys = buf
 	}
-	if vals != nil && sel%9 == 7 && len(keys) > 1 {
+	if small && vals != nil && sel%9 == 7 && len(keys) > 1 {
 		// ... and likewise ONE value buffer: it held the same values in reverse
 		// order when another trie was built from it
 		rv := reflect.ValueOf(vals)
